@@ -686,12 +686,13 @@ HTPdelete(atom_t ddid /* IN: DD id to delete */
     if (HPfreediskblock(file_rec, dd_ptr->offset, dd_ptr->length) == FAIL)
         HGOTO_ERROR(DFE_INTERNAL, FAIL);
 
-    /* Update the disk, etc. */
-    if (HTIupdate_dd(file_rec, dd_ptr) == FAIL)
+    /* Remove the ref # as 'used' in the tag tree & delete from dynarray of refs
+       (this turns the DD into a DFTAG_NULL one, so it has to come before the DD is written out) */
+    if (HTIunregister_tag_ref(file_rec, dd_ptr) == FAIL)
         HGOTO_ERROR(DFE_INTERNAL, FAIL);
 
-    /* Remove the ref # as 'used' in the tag tree & delete from dynarray of refs */
-    if (HTIunregister_tag_ref(file_rec, dd_ptr) == FAIL)
+    /* Update the disk, etc. */
+    if (HTIupdate_dd(file_rec, dd_ptr) == FAIL)
         HGOTO_ERROR(DFE_INTERNAL, FAIL);
 
     /* Destroy everything */
